@@ -73,13 +73,7 @@ func (s *Service) createFrom(
 	forwarded bool,
 ) error {
 	channels := *_channels
-	if *s.cfg.ValidateNames {
-		keys := KeysFromChannels(channels)
-		names := Names(channels)
-		if err := s.validateChannelNames(ctx, tx, keys, names, opts.RetrieveIfNameExists || opts.OverwriteIfNameExistsAndDifferentProperties); err != nil {
-			return err
-		}
-	}
+	requestedKeys := KeysFromChannels(channels)
 	for i, ch := range channels {
 		if ch.Leaseholder == 0 {
 			channels[i].Leaseholder = s.cfg.HostResolver.HostKey()
@@ -117,6 +111,16 @@ func (s *Service) createFrom(
 
 	// Append index channels to be created alongside calculated channels
 	channels = append(channels, indexChannels...)
+
+	// Validate names only now, so that the names of the auto-created index channels are
+	// covered as well.
+	if *s.cfg.ValidateNames {
+		keys := append(requestedKeys, KeysFromChannels(indexChannels)...)
+		names := Names(channels)
+		if err := s.validateChannelNames(ctx, tx, keys, names, opts.RetrieveIfNameExists || opts.OverwriteIfNameExistsAndDifferentProperties); err != nil {
+			return err
+		}
+	}
 
 	batch := s.createRouter.Batch(channels)
 	oChannels := make([]Channel, 0, len(channels))
